@@ -427,13 +427,13 @@ Section WordSim.
     destruct (wtrans_is_item s S _ to R Htr) as [w' [d' [l' [k [Eq _]]]]]. discriminate.
   Qed.
 
-  Theorem subword_complete_meaning (a : alltables) (benv : BashSem.env) (en : Meaning.env) (p : string) (log : list invocation) :
+  Theorem subword_complete_meaning (a : alltables) (benv : BashSem.env) (en : Meaning.env) (p : string) :
     d_start sd = 0 -> e_ignore_case benv = false -> printable_str p = true ->
-    exists reply, subword_complete Repaired a benv Tw p log = Ok (reply, log)
+    exists reply, (forall log, subword_complete Repaired a benv Tw p log = Ok (reply, log))
                   /\ forall o, In o reply <-> In o (wproper en x p).
   Proof.
     intros H0 Hic Hpr.
-    destruct (subword_complete_tables a benv Tw Hnocmd_tables Hnostar_tables Hne_tables Hpf_tables Hic Hnoccmd_tables p log Hpr)
+    destruct (subword_complete_tables a benv Tw Hnocmd_tables Hnostar_tables Hne_tables Hpf_tables Hic Hnoccmd_tables p Hpr)
       as [st' [cp [mp [Er [Ep Hg]]]]].
     eexists. split; [exact Er |].
     assert (R0 : wrel 0 [x]) by (rewrite <- H0; apply wrel_start).
